@@ -130,12 +130,12 @@ def _check_state(t, mL, mA, viol, tag, rel=4e-6, adeg=3e-4):
         snap = 1.5e-6
         ltol = rel * L.max() + 2 * snap
         norms = np.array([np.linalg.norm(a), np.linalg.norm(b), np.linalg.norm(c)])
-        if (np.abs(norms - L) > ltol).any():
+        if (~(np.abs(norms - L) <= ltol)).any():
             viol.append((tag + "/vector-norms", "frame %d norms %s lengths %s" % (f, norms, L)))
             return
         ang = np.degrees([oracle.angle(b, c), oracle.angle(c, a), oracle.angle(a, b)])
         atol = adeg + np.degrees(3 * snap / L.min())
-        if (np.abs(ang - A) > atol).any():
+        if (~(np.abs(ang - A) <= atol)).any():
             viol.append((tag + "/vector-angles", "frame %d angles between vectors %s stored %s" % (f, ang, A)))
             return
         if abs(a[1]) > snap or abs(a[2]) > snap or abs(b[2]) > snap or a[0] <= 0 or b[1] <= 0:
